@@ -127,6 +127,32 @@ theorem new_destroy_ledger (cap : Nat) (m : Mem) :
     · have e2 := Mem.alloc_fst_true m.alloc.2 h2
       simp [Rbuf.destroy, Mem.freeT, Mem.free, e1, e2]
 
+/-- **Size clause.** After any history the stored `size` field equals the number of items held by the
+ideal FIFO and never exceeds the capacity (the `cc_rbuf_size` / `cc_rbuf_is_empty` observers return
+exactly this field). -/
+theorem size_is_count (ops : List Op) (r : Rbuf) (m : Mem) (h : r.Inv) :
+    (r.run ops m).2.1.size = ((Spec.Fifo.mk r.cap r.abs).run ops).2.items.length ∧
+    (r.run ops m).2.1.size ≤ r.cap ∧
+    ((r.run ops m).2.1.isEmpty = true ↔ ((Spec.Fifo.mk r.cap r.abs).run ops).2.items = []) := by
+  obtain ⟨_, habs, hinv, _⟩ := history_refines ops r m h
+  have hlen := Rbuf.abs_length (r.run ops m).2.1
+  have hcap := (spec_size_le_cap (Spec.Fifo.mk r.cap r.abs) ops h.1 (by
+    simpa [Rbuf.abs_length] using h.2.2.1)).2
+  refine ⟨by rw [← habs, hlen], ?_, ?_⟩
+  · have := (spec_size_le_cap (Spec.Fifo.mk r.cap r.abs) ops h.1 (by
+      simpa [Rbuf.abs_length] using h.2.2.1)).1
+    rw [hcap] at this
+    rw [← habs, hlen] at this
+    exact this
+  · rw [← habs]
+    simp only [Rbuf.isEmpty, decide_eq_true_eq]
+    constructor
+    · intro h0
+      exact List.eq_nil_of_length_eq_zero (by rw [hlen]; exact h0)
+    · intro h0
+      rw [← hlen, h0]; rfl
+
+
 /-! ## Non-vacuity: a wrapped, exactly full buffer satisfies the invariant -/
 example : (Rbuf.mk 3 3 1 1 [8, 6, 7] .conf).Inv ∧ (Rbuf.mk 3 3 1 1 [8, 6, 7] .conf).abs = [6, 7, 8] := by decide
 
